@@ -1,3 +1,53 @@
-From Flodym Require Import Base.ND.
-Theorem placeholder : True. Proof. exact I. Qed.
-Print Assumptions placeholder.
+(* C12 — data import refuses incomplete or inconsistent data unless told otherwise.  Statements only.
+   The theorems quantify over the whole row list: a fault at ANY position and in any combination. *)
+From Coq Require Import List Arith Bool.
+Import ListNotations.
+From Flodym Require Import Base.ND Np.Einsum Model.Dims Model.Array Model.DF Proofs.DFProofs.
+
+Section G.
+Variable R : Type.
+Variable rO : R.
+Notation import := (import_rows R rO true 0).
+
+Theorem C12_refuses_missing_dimension_column_and_unmatched_value_columns :
+  forall ds om um am ae rows, om || um = true -> import ds om um am ae rows = Err.
+Proof. exact (refuses_layout_faults R rO). Qed.
+
+Theorem C12_refuses_unknown_item :
+  forall ds am rows, forallb (fun r => known ds (r_labels R r)) rows = false ->
+  import ds false false am false rows = Err.
+Proof. exact (refuses_unknown_item R rO). Qed.
+
+Theorem C12_refuses_duplicated_combination :
+  forall ds am rows, has_dup (map (r_labels R) rows) = true -> import ds false false am false rows = Err.
+Proof. exact (refuses_duplicate R rO). Qed.
+
+Theorem C12_refuses_missing_combination :
+  forall ds rows, length rows <> size (dshape ds) -> import ds false false false false rows = Err.
+Proof. exact (refuses_wrong_row_count R rO). Qed.
+
+Theorem C12_refuses_empty_value :
+  forall ds rows, existsb (fun r => match r_value R r with None => true | _ => false end) rows = true ->
+  import ds false false false false rows = Err.
+Proof. exact (refuses_empty_value R rO). Qed.
+
+(* allow_extra_values: rows carrying unknown items are ignored and nothing else changes *)
+Theorem C12_allow_extra_ignores_rows_with_unknown_items :
+  forall ds om um am rows,
+  import ds om um am true rows = import ds om um am false (filter (fun r => known ds (r_labels R r)) rows).
+Proof. exact (allow_extra_is_a_filter R rO). Qed.
+End G.
+Print Assumptions C12_refuses_missing_dimension_column_and_unmatched_value_columns.
+Print Assumptions C12_refuses_unknown_item.
+Print Assumptions C12_refuses_duplicated_combination.
+Print Assumptions C12_refuses_missing_combination.
+Print Assumptions C12_refuses_empty_value.
+Print Assumptions C12_allow_extra_ignores_rows_with_unknown_items.
+
+(* before the repair: two identical rows with an unknown item made the import fail although extra rows are allowed *)
+Example ex_C12_dup_before_filter :
+  let ds := [mk_dim 116 0 [0; 1]] in
+  let rows := [mk_row nat [7] (Some 1); mk_row nat [7] (Some 1); mk_row nat [0] (Some 2); mk_row nat [1] (Some 3)] in
+  import_rows nat 0 false 0 ds false false false true rows = Err
+  /\ import_rows nat 0 true 0 ds false false false true rows = Ok [2; 3].
+Proof. vm_compute. split; reflexivity. Qed.
